@@ -12,6 +12,21 @@ open XknxVerif.Crypto XknxVerif.DataSecure
 /-- AES-128 as a `BlockFn`. -/
 def aes : BlockFn := AES128.encrypt
 
+/-- The same function (`AES128.encrypt k b = AES128.encryptWith (AES128.expandKey k) b` by
+definition) with the key schedule of `key` computed once per op line. -/
+def aesWith (rks : List Bytes) (key : Bytes) : BlockFn :=
+  fun k b => if k == key then AES128.encryptWith rks b else AES128.encrypt k b
+
+/-- Call sites bind `aesFor key` with `let`, so the schedule is expanded once. -/
+@[inline] def aesFor (key : Bytes) : BlockFn := aesWith (AES128.expandKey key) key
+
+theorem aesFor_eq (key : Bytes) : aesFor key = aes := by
+  funext k b
+  simp only [aesFor, aesWith, aes, AES128.encrypt]
+  split
+  · rename_i h; rw [eq_of_beq h]
+  · rfl
+
 def hex (b : Bytes) : String := hexOfBytes b
 
 def errName : Err → String
@@ -125,18 +140,20 @@ def handle : List String → String
       match bytesOfHex? key, scf.toNat?, seq.toNat?, src.toNat?, dst.toNat?, eff.toNat?, tpci.toNat?,
           bytesOfHex? apdu with
       | some key, some scf, some seq, some src, some dst, some eff, some tpci, some apdu =>
+        let E := aesFor key
         if op == "secure" then
-          match secure aes key (scfOfOctet scf) seq (mkCtx src dst (bit group) eff tpci) apdu with
+          match secure E key (scfOfOctet scf) seq (mkCtx src dst (bit group) eff tpci) apdu with
           | .ok d => s!"ok {hex d.toKnx}"
           | .error e => s!"err {errName e}"
         else
-          s!"ok {hex (Spec.specSecure aes key scf seq src dst (bit group) eff tpci apdu)}"
+          s!"ok {hex (Spec.specSecure E key scf seq src dst (bit group) eff tpci apdu)}"
       | _, _, _, _, _, _, _, _ => "bad-op"
     else "bad-op"
   | ["plain", key, scf, src, dst, group, eff, tpci, asdu] =>
     match bytesOfHex? key, scf.toNat?, src.toNat?, dst.toNat?, eff.toNat?, tpci.toNat?, bytesOfHex? asdu with
     | some key, some scf, some src, some dst, some eff, some tpci, some asdu =>
-      match getPlain aes key (scfOfOctet scf) (mkCtx src dst (bit group) eff tpci) (SecureData.fromKnx asdu) with
+      let E := aesFor key
+      match getPlain E key (scfOfOctet scf) (mkCtx src dst (bit group) eff tpci) (SecureData.fromKnx asdu) with
       | .ok p => s!"ok {hex p}"
       | .error e => s!"err {errName e}"
     | _, _, _, _, _, _, _ => "bad-op"
@@ -149,7 +166,9 @@ def handle : List String → String
         if keys == "none" then some none else (parseKeys keys).map fun k => some ⟨k, senders, sendSeq⟩
       match ds with
       | some ds =>
-        let (ds', r) := DataSecure.handle aes ds f (fun _ => bit inner)
+        let k0 := match ds with | some d => (d.keys.head?.map Prod.snd).getD [] | none => []
+        let E := aesFor k0
+        let (ds', r) := DataSecure.handle E ds f (fun _ => bit inner)
         let t := match ds' with | some d => showTable d.senders | none => "-"
         s!"{showRoute r} {t}"
       | none => "bad-op"
@@ -159,7 +178,8 @@ def handle : List String → String
         parsePayload kind body with
     | some keys, some sendSeq, some ctrl, some src, some dst, some tpci, some p =>
       let f := Frame.ofCtrl ctrl src dst tpci p
-      match outgoing aes ⟨keys, [], sendSeq⟩ f with
+      let E := aesFor ((keys.head?.map Prod.snd).getD [])
+      match outgoing E ⟨keys, [], sendSeq⟩ f with
       | (ds', .plain _) => s!"plain {ds'.sendSeq}"
       | (ds', .secured f') => s!"secured {hex f'.payload.bytes} {ds'.sendSeq}"
       | (ds', .dsError _) => s!"dserror {ds'.sendSeq}"
